@@ -49,13 +49,37 @@ from .values import (
 )
 
 MAX_UNROLL = 400
+_KEEP_GOING = bool(__import__("os").environ.get("PYVC_KEEP_GOING"))
 MAX_DEPTH = 60
 
 
+_FID = itertools.count(1)
+
+
+class Cell:
+    """Entry of FuncVal.closure for a variable of an enclosing FUNCTION activation: CPython closures share the variable
+    itself (a cell), not its value at definition time.  The variable lives in the frame `fid` while that activation is on
+    the stack of the path and in st.ghost[("cell", fid, name)] afterwards (Interp.cell_get / cell_set / pop_frame)."""
+
+    __slots__ = ("fid",)
+
+    def __init__(self, fid):
+        self.fid = fid
+
+
+class _NameErr(Exception):
+    """raised by Interp.lookup for an unbound local / free variable; ev_Name turns it into the Python exception"""
+
+    def __init__(self, cls, msg):
+        Exception.__init__(self, msg)
+        self.cls = cls
+
+
 class Frame:
-    __slots__ = ("vars", "func", "module", "cls", "is_harness", "loopno", "entry")
+    __slots__ = ("vars", "func", "module", "cls", "is_harness", "loopno", "entry", "fid")
 
     def __init__(self, vars, func, module, cls=None, is_harness=False):
+        self.fid = next(_FID)  # identity of the activation (kept by copy(): the same activation in a forked path)
         self.vars = vars
         self.func = func
         self.module = module
@@ -68,6 +92,7 @@ class Frame:
         f = Frame(dict(self.vars), self.func, self.module, self.cls, self.is_harness)
         f.loopno = self.loopno
         f.entry = self.entry
+        f.fid = self.fid
         return f
 
 
@@ -82,6 +107,7 @@ class St:
         self.heap = {}  # abstract heap: field name -> z3 array (see heap.py)
         self.nid = [0]
         self.trail = []  # branch decisions (for reporting)
+        self.const = True  # a throw-away state of a module / class constant evaluation (the lemma's state: False, run.py)
 
     def fork(self):
         s = St()
@@ -92,6 +118,7 @@ class St:
         s.heap = dict(self.heap)
         s.nid = self.nid
         s.trail = list(self.trail)
+        s.const = self.const
         return s
 
     def alloc(self, entry):
@@ -129,6 +156,7 @@ class Obligation:
 class Interp:
     def __init__(self, feas_timeout_ms=int(__import__("os").environ.get("PYVC_FEAS_MS", "400"))):
         self.obligations = []
+        self._const_cells = {}
         self.axioms = []
         self._axiom_keys = set()
         self.assumption_log = []  # trusted models actually used
@@ -459,10 +487,11 @@ class Interp:
         materialises it from its initial value, later accesses see the same object (so `byName[k] = x` in one
         function is visible to the next reader), forks copy it with the store.  Keyed by the identity of the frozen
         initial value, which the globals cache keeps alive."""
-        if isinstance(v, (FrozenList, FrozenDict, FrozenNd, FrozenObj, frozenset)):
+        if isinstance(v, (FrozenList, FrozenDict, FrozenNd, FrozenObj, frozenset)) or (
+                type(v) is tuple and any(isinstance(x, (FrozenObj, FrozenList, FrozenDict, FrozenNd, frozenset, tuple)) for x in v)):
             k = ("modglobal", id(v))
             r = st.ghost.get(k)
-            if r is None or r.id not in st.store:
+            if r is None or (isinstance(r, Ref) and r.id not in st.store):
                 r = self.thaw(v, st)
                 st.ghost[k] = r
                 self._global_keep.append(v)
@@ -473,8 +502,15 @@ class Interp:
         fr = st.frame
         if name in fr.vars:
             return fr.vars[name]
+        if fr.func is not None and name in self.local_names(fr.func):
+            # CPython: a name bound anywhere in a function body is local in the WHOLE body; reading it while unbound is
+            # UnboundLocalError - it never falls through to an enclosing / global / builtin name
+            raise _NameErr("UnboundLocalError", "cannot access local variable '%s' where it is not associated with a value" % name)
         if fr.func is not None and fr.func.closure is not None and name in fr.func.closure:
-            return fr.func.closure[name]
+            v = fr.func.closure[name]
+            if isinstance(v, Cell):
+                return self.cell_get(st, v.fid, name)
+            return v
         if fr.is_harness and name in self.extra_globals:
             return self.thaw_global(self.extra_globals[name], st)
         mi = fr.module
@@ -608,13 +644,33 @@ class Interp:
         k = ("mro", id(getattr(cls, "node", None)) if isinstance(cls, ClassVal) else cls.name)
         if k in self._class_cache:
             return self._class_cache[k]
+        if isinstance(cls, ClassVal):
+            for d in cls.node.decorator_list:
+                nm = d.func if isinstance(d, ast.Call) else d
+                nm = nm.attr if isinstance(nm, ast.Attribute) else getattr(nm, "id", None)
+                if nm not in ("dataclass", "unique", "total_ordering", "runtime_checkable", "final"):
+                    # CPython binds the class name to decorator(class); an ignored decorator would be a different class
+                    raise Unsupported("class decorator %s on %s" % (nm, cls.name))
+        # C3 linearisation (what type.mro() computes): merge of the bases' linearisations and the list of bases, always taking
+        # the first head that is in no tail.  (A "move repeated classes to the end" approximation differs from C3, e.g. for
+        # A(B, C), B(D, E), C(D, F): C3 gives A B C D E F, not A B E C D F.)
+        bases = list(self.bases(cls))
+        seqs = [list(self.mro(b)) for b in bases] + [bases]
         out = [cls]
-        for b in self.bases(cls):
-            for c in self.mro(b):
-                if c in out:
-                    out.remove(c)
-                out.append(c)
-        # C3-ish: a base must come after all classes deriving from it (handled by the move-to-end above)
+        while True:
+            seqs = [q for q in seqs if q]
+            if not seqs:
+                break
+            for q in seqs:
+                h = q[0]
+                if not any(h in r[1:] for r in seqs):
+                    break
+            else:
+                raise Unsupported("inconsistent method resolution order for %s (TypeError in CPython)" % cls.name)
+            out.append(h)
+            for q in seqs:
+                if q[0] == h:
+                    del q[0]
         self._class_cache[k] = out
         return out
 
@@ -629,6 +685,12 @@ class Interp:
                         if "setter" in decs:
                             m[n.name + ".setter"] = FuncVal(n, cls.module, cls)
                             continue
+                        if "deleter" in decs:
+                            # @x.deleter def x(self): the property keeps its getter (and setter) and gains a deleter
+                            m[n.name + ".deleter"] = FuncVal(n, cls.module, cls)
+                            continue
+                        if "getter" in decs:
+                            raise Unsupported("@%s.getter" % n.name)
                     m[n.name] = FuncVal(n, cls.module, cls)
                 elif isinstance(n, ast.Assign):
                     for t in n.targets:
@@ -736,8 +798,130 @@ class Interp:
             raise Unsupported("complex constant")
         yield st, v
 
+    # closures --------------------------------------------------------------------
+    def _scope_info(self, func):
+        """static facts about a function body (cached per node): (names local to the body, names mentioned in nested
+        functions / lambdas = possible cell variables, names declared nonlocal)"""
+        node = getattr(func, "node", None)
+        if node is None:
+            return frozenset(), frozenset(), frozenset()
+        c = node.__dict__.get("_pyvc_scope")
+        if c is not None:
+            return c
+        local, inner, nonl, glob = set(), set(), set(), set()
+        a = node.args
+        for x in a.posonlyargs + a.args + a.kwonlyargs + ([a.vararg] if a.vararg else []) + ([a.kwarg] if a.kwarg else []):
+            local.add(x.arg)
+
+        def targets(t):
+            if isinstance(t, ast.Name):
+                local.add(t.id)
+            elif isinstance(t, (ast.Tuple, ast.List)):
+                for e in t.elts:
+                    targets(e)
+            elif isinstance(t, ast.Starred):
+                targets(t.value)
+
+        def walk(n, incomp):
+            if isinstance(n, (ast.FunctionDef, ast.AsyncFunctionDef, ast.ClassDef)):
+                local.add(n.name)
+                for d in n.decorator_list:
+                    walk(d, incomp)
+                if not isinstance(n, ast.ClassDef):
+                    for d in n.args.defaults + [k for k in n.args.kw_defaults if k is not None]:
+                        walk(d, incomp)
+                for sub in ast.walk(n):
+                    if isinstance(sub, ast.Name):
+                        inner.add(sub.id)
+                    elif isinstance(sub, ast.Nonlocal):
+                        inner.update(sub.names)
+                return
+            if isinstance(n, ast.Lambda):
+                for d in n.args.defaults + [k for k in n.args.kw_defaults if k is not None]:
+                    walk(d, incomp)
+                for sub in ast.walk(n):
+                    if isinstance(sub, ast.Name):
+                        inner.add(sub.id)
+                return
+            if isinstance(n, ast.Global):
+                glob.update(n.names)
+            elif isinstance(n, ast.Nonlocal):
+                nonl.update(n.names)
+            elif isinstance(n, ast.Name) and isinstance(n.ctx, (ast.Store, ast.Del)) and not incomp:
+                local.add(n.id)
+            elif isinstance(n, ast.NamedExpr):
+                targets(n.target)  # binds in the enclosing function even inside a comprehension
+            elif isinstance(n, (ast.Import, ast.ImportFrom)):
+                for al in n.names:
+                    local.add(al.asname or al.name.split(".")[0])
+            elif isinstance(n, ast.ExceptHandler) and n.name:
+                local.add(n.name)
+            elif isinstance(n, (ast.MatchAs, ast.MatchStar)) and n.name:
+                local.add(n.name)
+            elif isinstance(n, ast.MatchMapping) and n.rest:
+                local.add(n.rest)
+            if isinstance(n, (ast.ListComp, ast.SetComp, ast.DictComp, ast.GeneratorExp)):
+                # a comprehension is a scope of its own: its targets are not locals of the function
+                for sub in ast.iter_child_nodes(n):
+                    walk(sub, True)
+                return
+            for sub in ast.iter_child_nodes(n):
+                walk(sub, incomp)
+
+        body = node.body if isinstance(node.body, list) else [node.body]
+        for stmt in body:
+            walk(stmt, False)
+        local -= glob
+        local -= nonl
+        c = node._pyvc_scope = (frozenset(local), frozenset(inner), frozenset(nonl))
+        return c
+
+    def local_names(self, func):
+        return self._scope_info(func)[0]
+
+    def cell_get(self, st, fid, name):
+        for fr in reversed(st.frames):
+            if fr.fid == fid:
+                if name in fr.vars:
+                    return fr.vars[name]
+                raise _NameErr("NameError", "cannot access free variable '%s' where it is not associated with a value in enclosing scope" % name)
+        k = ("cell", fid, name)
+        if k in st.ghost:
+            return st.ghost[k]
+        if k in self._const_cells:
+            # the enclosing activation ran while a module / class constant was evaluated (a property factory called in a
+            # class body): its variables are the same on every path, as long as they are immutable values
+            v = self._const_cells[k]
+            if isinstance(v, Ref):
+                raise Unsupported("closure over a mutable object created while a module / class constant was evaluated (%s)" % name)
+            return v
+        raise _NameErr("NameError", "cannot access free variable '%s' where it is not associated with a value in enclosing scope" % name)
+
+    def cell_set(self, st, fid, name, v):
+        for fr in reversed(st.frames):
+            if fr.fid == fid:
+                fr.vars[name] = v
+                return
+        st.ghost[("cell", fid, name)] = v
+
+    def pop_frame(self, st):
+        """leave a function activation: variables that nested functions may still refer to move to the path's ghost state"""
+        fr = st.frames.pop()
+        if fr.func is not None:
+            inner = self._scope_info(fr.func)[1]
+            if inner:
+                for n in inner:
+                    if n in fr.vars:
+                        st.ghost[("cell", fr.fid, n)] = fr.vars[n]
+                        if st.const:
+                            self._const_cells[("cell", fr.fid, n)] = fr.vars[n]
+        return fr
+
     def ev_Name(self, node, st):
-        yield st, self.lookup(node.id, st)
+        try:
+            yield st, self.lookup(node.id, st)
+        except _NameErr as e:
+            yield st, Exc(ExcVal(BuiltinClass(e.cls, getattr(_pybuiltins, e.cls)), (str(e),)))
 
     def ev_Tuple(self, node, st):
         if any(isinstance(e, ast.Starred) for e in node.elts):
@@ -777,7 +961,7 @@ class Interp:
             else:
                 items = []
                 for v in vs:
-                    self.hashable(v)
+                    self.set_elem(st1, v)
                     if v not in items:
                         items.append(v)
                 yield st1, st1.alloc(SetE(items))
@@ -842,14 +1026,14 @@ class Interp:
         if any(k is None for k in node.keys):
             yield from self._ev_dict_unpacking(node, st)
             return
-        for st1, ks in self.ev_many(node.keys, st):
-            if isinstance(ks, Exc):
-                yield st1, ks
+        # CPython evaluates a dict display entry by entry: key1, value1, key2, value2, ... (not all keys, then all values)
+        inter = [n for kv in zip(node.keys, node.values) for n in kv]
+        for st1, kvs in self.ev_many(inter, st):
+            if isinstance(kvs, Exc):
+                yield st1, kvs
                 continue
-            for st2, vs in self.ev_many(node.values, st1):
-                if isinstance(vs, Exc):
-                    yield st2, vs
-                    continue
+            ks, vs = kvs[0::2], kvs[1::2]
+            for st2 in (st1,):
                 from . import keyed
 
                 if any(not is_z3(k) and keyed.is_special(self, st2, k) for k in ks):
@@ -872,6 +1056,15 @@ class Interp:
                 for k, v in zip(ks, vs):
                     d[self.hashable(k)] = v
                 yield st2, st2.alloc(DictE(d))
+
+    def set_elem(self, st, x):
+        """element of a builtin set: sets find equal elements through __hash__ and __eq__; the model compares objects by
+        identity, which is only right for objects WITHOUT a user-defined __eq__"""
+        from . import keyed
+
+        if keyed._has_user_eq(self, st, x):
+            raise Unsupported("object with a user-defined __eq__ as element of a set")
+        return self.hashable(x)
 
     def hashable(self, k):
         if is_z3(k) or isinstance(k, Ref):
@@ -958,16 +1151,44 @@ class Interp:
         return v
 
     def ev_Lambda(self, node, st):
-        fv = FuncVal(node, st.frame.module, st.frame.cls, closure=self.closure_of(st), name="<lambda>")
-        fv.lexcls = self.lexical_class_name(st)
-        yield st, fv
+        for st1, dv in self._def_time_defaults(node, st):
+            if isinstance(dv, Exc):
+                yield st1, dv
+                continue
+            fv = FuncVal(node, st1.frame.module, st1.frame.cls, closure=self.closure_of(st1), name="<lambda>")
+            fv.lexcls = self.lexical_class_name(st1)
+            fv.defvals = dv
+            yield st1, fv
+
+    def _def_time_defaults(self, node, st):
+        """CPython evaluates default-argument expressions ONCE, when the def / lambda is executed (left to right,
+        positional defaults then keyword-only defaults); every call without that argument gets the same object.
+        -> (st, {id(default expression node): value}) | (st, Exc)"""
+        exprs = list(node.args.defaults) + [d for d in node.args.kw_defaults if d is not None]
+        if not exprs:
+            yield st, {}
+            return
+        for st1, vs in self.ev_many(exprs, st):
+            if isinstance(vs, Exc):
+                yield st1, vs
+            else:
+                yield st1, {id(e): v for e, v in zip(exprs, vs)}
 
     def closure_of(self, st):
+        """what a function defined now sees of the enclosing scopes.  Variables of an enclosing function activation are
+        shared by reference (Cell): a later rebinding in the enclosing function - the next value of a loop variable - is
+        what the inner function reads when it is called (late binding), and `nonlocal` writes go to the same variable."""
         c = {}
         f = st.frame
         if f.func is not None and f.func.closure:
             c.update(f.func.closure)
-        c.update(f.vars)
+        if f.func is not None:
+            for n in self.local_names(f.func):
+                c[n] = Cell(f.fid)
+            for n in f.vars:
+                c[n] = Cell(f.fid)
+        else:
+            c.update(f.vars)  # module / class level evaluation frames: no function activation, values as they are
         return c
 
     def ev_IfExp(self, node, st):
@@ -1363,7 +1584,7 @@ class Interp:
 
     def ev_ListComp(self, node, st):
         acc = st.alloc(ListE([]))
-        saved = set(st.frame.vars)
+        saved = self._comp_saved(node, st)
 
         def leaf(s):
             for s1, v in list(self.ev(node.elt, s)):
@@ -1377,10 +1598,34 @@ class Interp:
             self._drop_comp_vars(st1, saved)
             yield st1, (r if isinstance(r, Exc) else acc)
 
+    def _comp_saved(self, node, st):
+        """A comprehension is a scope of its own (Python 3): its loop variables neither survive it nor touch variables of
+        the same name in the enclosing function.  The model runs it in the enclosing frame, so the enclosing values of
+        the target names are put back afterwards.  A lambda / def inside the comprehension would have to share the
+        comprehension's own variable cell, which this emulation cannot provide -> refused when it mentions a target."""
+        targets = set()
+        for g in node.generators:
+            for n in ast.walk(g.target):
+                if isinstance(n, ast.Name):
+                    targets.add(n.id)
+        for n in ast.walk(node):
+            if isinstance(n, (ast.Lambda, ast.FunctionDef)):
+                dflt = {id(x) for d in n.args.defaults + [k for k in n.args.kw_defaults if k is not None] for x in ast.walk(d)}
+                for m in ast.walk(n):
+                    if isinstance(m, ast.Name) and m.id in targets and id(m) not in dflt and m.id not in [a.arg for a in n.args.args + n.args.kwonlyargs + n.args.posonlyargs]:
+                        raise Unsupported("function inside a comprehension refers to the comprehension variable %s" % m.id)
+        # `(w := e)` inside a comprehension binds w in the ENCLOSING function: such names survive the comprehension
+        walrus = {n.target.id for n in ast.walk(node) if isinstance(n, ast.NamedExpr)}
+        return (set(st.frame.vars) | walrus, {k: st.frame.vars[k] for k in targets if k in st.frame.vars}, targets)
+
     def _drop_comp_vars(self, st, saved):
+        names, vals, targets = saved
         for k in list(st.frame.vars):
-            if k not in saved:
+            if k not in names:
                 del st.frame.vars[k]
+        for k in targets:
+            if k in vals:
+                st.frame.vars[k] = vals[k]
 
     def ev_GeneratorExp(self, node, st):
         self.trust("genexp-eager", "generator expressions are evaluated eagerly (pure element expressions)")
@@ -1398,14 +1643,14 @@ class Interp:
                 continue
             items = []
             for v in st1.get(r).items:
-                self.hashable(v)
+                self.set_elem(st1, v)
                 if v not in items:
                     items.append(v)
             yield st1, st1.alloc(SetE(items))
 
     def ev_DictComp(self, node, st):
         acc = st.alloc(DictE())
-        saved = set(st.frame.vars)
+        saved = self._comp_saved(node, st)
 
         def leaf(s):
             for s1, kv in self.ev_many([node.key, node.value], s):
@@ -1559,6 +1804,9 @@ class Interp:
                 yield from _mc.call_meta(self, st, cls, args, kwargs)  # Meta(name, bases, attrs): a new class
                 return
             _mc.ensure(self, st, cls)
+        from .attrs import ensure_init_subclass
+
+        ensure_init_subclass(self, st, cls)
         if self.is_exception_class(cls):
             yield st, ExcVal(cls, args)
             return
@@ -1645,17 +1893,34 @@ class Interp:
         return vars, None
 
     def eval_default(self, f, expr, st):
+        """CPython evaluates a default once, at definition time: every call shares that one object (a mutable default
+        keeps what earlier calls put into it).  Nested functions / lambdas carry the values computed when the def was
+        executed; for module- and class-level functions the value is made the first time it is needed on a path and
+        kept in the path state (as module-level containers are)."""
+        dv = getattr(f, "defvals", None)
+        if dv is not None and id(expr) in dv:
+            return dv[id(expr)]
+        key = ("default", id(expr))
+        r = st.ghost.get(key)
+        if r is not None and r.id in st.store:
+            return r
         st0 = St()
         st0.nid = st.nid
+        if any(isinstance(v, Cell) for v in (f.closure or {}).values()):
+            raise Unsupported("default argument of a nested function evaluated outside its definition")
         st0.frames.append(Frame(dict(f.closure or {}), None, f.module))
         outs = list(self.ev(expr, st0))
         if len(outs) != 1 or isinstance(outs[0][1], Exc):
             raise Unsupported("default argument expression")
         v = outs[0][1]
-        if isinstance(v, Ref):
-            # mutable default: fresh copy per call is a deviation only if the code mutates it
-            e = outs[0][0].get(v)
-            return st.alloc(e.copy())
+        if isinstance(v, Ref) or (isinstance(v, tuple) and any(isinstance(x, Ref) for x in v)):
+            fz = self.freeze(v, outs[0][0])
+            if isinstance(fz, Unknown):
+                raise Unsupported("mutable default argument of this kind")
+            v = self.thaw(fz, st)
+            if isinstance(v, Ref):
+                st.ghost[key] = v
+                self._global_keep.append(expr)
         return v
 
     def call_func(self, f, args, kwargs, st, node=None):
@@ -1665,7 +1930,6 @@ class Interp:
             self.trust("stub:" + q, "callee %s used through its contract `%s` (proved separately)" % (q, self.stubs[q].name))
             yield from self.call_func(self.stubs[q], args, kwargs, st, node)
             return
-        decs = f.decorators()
         if isinstance(f.node, ast.Lambda):
             vars, err = self.bind_args(f, args, kwargs, st)
             if err is not None:
@@ -1673,8 +1937,12 @@ class Interp:
                 return
             st.frames.append(Frame(vars, f, f.module, f.cls))
             for st1, v in list(self.ev(f.node.body, st)):
-                st1.frames.pop()
+                self.pop_frame(st1)
                 yield st1, v
+            return
+        if not getattr(f, "raw", False) and any(not self.transparent_decorator(d) for d in f.node.decorator_list):
+            # an ignored decorator would run the bare function where CPython runs decorator(function)
+            yield from self.call(self.decorated(f, st), args, kwargs, st, node)
             return
         if len(st.frames) > MAX_DEPTH:
             raise Unsupported("call depth > %d (recursion without contract?) at %s" % (MAX_DEPTH, q))
@@ -1695,7 +1963,7 @@ class Interp:
         fr.entry = dict(vars)
         st.frames.append(fr)
         for st1, ctrl in self.ex_block(f.node.body, st):
-            st1.frames.pop()
+            self.pop_frame(st1)
             if ctrl is None:
                 yield st1, None
             elif ctrl[0] == "return":
@@ -1858,11 +2126,19 @@ class Interp:
             if fr.module is None:
                 raise Unsupported("global statement without module")
             st.ghost[("modglobal", fr.module.name, name)] = v
+        elif fr.func is not None and name in self._scope_info(fr.func)[2]:
+            # `nonlocal name`: the variable of the enclosing function activation is rebound
+            c = (fr.func.closure or {}).get(name)
+            if not isinstance(c, Cell):
+                raise Unsupported("nonlocal %s without an enclosing function variable" % name)
+            self.cell_set(st, c.fid, name, v)
         else:
             fr.vars[name] = v
 
     def ex_Nonlocal(self, node, st):
-        raise Unsupported("nonlocal statement")
+        if st.frame.func is None:
+            raise Unsupported("nonlocal statement outside a function")
+        yield st, None
 
     def ex_Import(self, node, st):
         for a in node.names:
@@ -1934,11 +2210,16 @@ class Interp:
         opname = type(node.op).__name__
         tgt = node.target
         if isinstance(tgt, ast.Name):
+            # CPython reads the target BEFORE it evaluates the right-hand side (x += f() uses the x from before f ran)
+            try:
+                cur = self.lookup(tgt.id, st)
+            except _NameErr as e:
+                yield st, ("raise", ExcVal(BuiltinClass(e.cls, getattr(_pybuiltins, e.cls)), (str(e),)))
+                return
             for st1, rhs in list(self.ev(node.value, st)):
                 if isinstance(rhs, Exc):
                     yield st1, ("raise", rhs.exc)
                     continue
-                cur = self.lookup(tgt.id, st1)
                 for st2, r in self.models.binop(self, st1, opname, cur, rhs, inplace=True):
                     if isinstance(r, Exc):
                         yield st2, ("raise", r.exc)
@@ -1946,39 +2227,43 @@ class Interp:
                         self.bind_name(st2, tgt.id, r)
                         yield st2, None
         elif isinstance(tgt, ast.Attribute):
-            for st1, vs in self.ev_many([tgt.value, node.value], st):
-                if isinstance(vs, Exc):
-                    yield st1, ("raise", vs.exc)
+            # CPython: object, then the attribute's current value, THEN the right-hand side
+            for st1, obj in list(self.ev(tgt.value, st)):
+                if isinstance(obj, Exc):
+                    yield st1, ("raise", obj.exc)
                     continue
-                obj, rhs = vs
-                for st2, cur in list(self.getattr(obj, self.mangle(tgt.attr, st1), st1)):
+                attr = self.mangle(tgt.attr, st1)
+                for st2, cur in list(self.getattr(obj, attr, st1)):
                     if isinstance(cur, Exc):
                         yield st2, ("raise", cur.exc)
                         continue
-                    for st3, r in self.models.binop(self, st2, opname, cur, rhs, inplace=True):
-                        if isinstance(r, Exc):
-                            yield st3, ("raise", r.exc)
-                            continue
-                        for st4, r2 in self.models.setattr(self, st3, obj, self.mangle(tgt.attr, st3), r):
-                            yield st4, (("raise", r2.exc) if isinstance(r2, Exc) else None)
+                    yield from self._aug_finish(node, opname, st2, cur, lambda s, r, obj=obj, attr=attr: self.models.setattr(self, s, obj, attr, r))
         elif isinstance(tgt, ast.Subscript):
-            for st1, vs in self.ev_many([tgt.value, tgt.slice, node.value], st):
+            # CPython: container, index, the item's current value, THEN the right-hand side
+            for st1, vs in self.ev_many([tgt.value, tgt.slice], st):
                 if isinstance(vs, Exc):
                     yield st1, ("raise", vs.exc)
                     continue
-                obj, idx, rhs = vs
+                obj, idx = vs
                 for st2, cur in list(self.models.getitem(self, st1, obj, idx)):
                     if isinstance(cur, Exc):
                         yield st2, ("raise", cur.exc)
                         continue
-                    for st3, r in self.models.binop(self, st2, opname, cur, rhs, inplace=True):
-                        if isinstance(r, Exc):
-                            yield st3, ("raise", r.exc)
-                            continue
-                        for st4, r2 in self.models.setitem(self, st3, obj, idx, r):
-                            yield st4, (("raise", r2.exc) if isinstance(r2, Exc) else None)
+                    yield from self._aug_finish(node, opname, st2, cur, lambda s, r, obj=obj, idx=idx: self.models.setitem(self, s, obj, idx, r))
         else:
             raise Unsupported("augmented assignment target")
+
+    def _aug_finish(self, node, opname, st, cur, store):
+        for st2, rhs in list(self.ev(node.value, st)):
+            if isinstance(rhs, Exc):
+                yield st2, ("raise", rhs.exc)
+                continue
+            for st3, r in self.models.binop(self, st2, opname, cur, rhs, inplace=True):
+                if isinstance(r, Exc):
+                    yield st3, ("raise", r.exc)
+                    continue
+                for st4, r2 in store(st3, r):
+                    yield st4, (("raise", r2.exc) if isinstance(r2, Exc) else None)
 
     def assign(self, target, v, st):
         """yield (st, None|Exc)"""
@@ -2044,7 +2329,15 @@ class Interp:
             if isinstance(t, ast.Name):
                 if t.id in self.global_decls(st1.frame.func):
                     raise Unsupported("del of a name declared global")
-                st1.frame.vars.pop(t.id, None)
+                if t.id in self._scope_info(st1.frame.func)[2]:
+                    raise Unsupported("del of a name declared nonlocal")
+                if t.id not in st1.frame.vars:
+                    # CPython: deleting an unbound name is an error, not a no-op
+                    if st1.frame.func is None:
+                        raise Unsupported("del of an unbound name outside a function")
+                    yield st1, ("raise", ExcVal(BuiltinClass("UnboundLocalError", UnboundLocalError), ("cannot access local variable '%s'" % t.id,)))
+                    return
+                del st1.frame.vars[t.id]
                 yield from do(st1, k + 1)
             elif isinstance(t, ast.Subscript):
                 for st2, vs in self.ev_many([t.value, t.slice], st1):
@@ -2116,9 +2409,10 @@ class Interp:
                 if is_z3(t):
                     st1.pc.append(t)
                     yield st1, None
-                elif t:
+                elif t or _KEEP_GOING:
                     yield st1, None
-                # concrete False: path ends here (obligation recorded)
+                # concrete False: path ends here (obligation recorded); PYVC_KEEP_GOING=1 (developer aid for the engine
+                # self-tests) continues instead so that one run lists every failing assertion of a lemma
                 continue
             for st2, b in self.branch(st1, t):
                 if b:
@@ -2181,11 +2475,16 @@ class Interp:
                     if self.exc_matches(exc, hv):
                         handled = True
                         if h.name:
-                            st1.frame.vars[h.name] = exc
+                            self.bind_name(st1, h.name, exc)
                         prev = st1.ghost.get("__current_exc__")
                         st1.ghost["__current_exc__"] = exc
                         for st2, c2 in list(self.ex_block(h.body, st1)):
                             st2.ghost["__current_exc__"] = prev
+                            if h.name:
+                                # CPython: `except E as n` ends with an implicit `del n` (however the handler is left)
+                                if h.name in self.global_decls(st2.frame.func) or h.name in self._scope_info(st2.frame.func)[2]:
+                                    raise Unsupported("exception variable declared global / nonlocal")
+                                st2.frame.vars.pop(h.name, None)
                             yield from finalize(st2, c2)
                         break
                 if not handled:
@@ -2197,10 +2496,82 @@ class Interp:
         yield from self.models.exec_with(self, st, node)
 
     def ex_FunctionDef(self, node, st):
-        fv = FuncVal(node, st.frame.module, None, closure=self.closure_of(st))
-        fv.lexcls = self.lexical_class_name(st)
-        st.frame.vars[node.name] = fv
-        yield st, None
+        # CPython: decorator expressions are evaluated first (top to bottom), then the defaults, then the function object is
+        # made, then the decorators are applied bottom-up and the result is bound to the name
+        decs = [d for d in node.decorator_list if not self.transparent_decorator(d)]
+        for st0, dvals in self.ev_many(decs, st):
+            if isinstance(dvals, Exc):
+                yield st0, ("raise", dvals.exc)
+                continue
+            for st1, dv in self._def_time_defaults(node, st0):
+                if isinstance(dv, Exc):
+                    yield st1, ("raise", dv.exc)
+                    continue
+                fv = FuncVal(node, st1.frame.module, None, closure=self.closure_of(st1))
+                fv.lexcls = self.lexical_class_name(st1)
+                fv.defvals = dv
+                fv.raw = True  # decorators are applied here, not at call time
+
+                def app(st2, k, val):
+                    if k < 0:
+                        self.bind_name(st2, node.name, val)
+                        yield st2, None
+                        return
+                    for st3, r in self.call(dvals[k], [val], {}, st2):
+                        if isinstance(r, Exc):
+                            yield st3, ("raise", r.exc)
+                        else:
+                            yield from app(st3, k - 1, r)
+
+                yield from app(st1, len(decs) - 1, fv)
+
+    # decorators whose result behaves, for every call, like the function they are given
+    _TRANSPARENT_DECORATORS = {
+        "staticmethod", "classmethod", "property", "setter", "getter", "deleter", "cached_property",  # interpreted by the attribute model
+        "abstractmethod", "abstractproperty",  # abc: marks only
+        "HOOKIMPL", "HOOKSPEC",  # pluggy markers: return the function with a marker attribute
+        "lemma", "overload",
+    }
+
+    def transparent_decorator(self, d):
+        if isinstance(d, ast.Call):
+            nm = d.func.attr if isinstance(d.func, ast.Attribute) else getattr(d.func, "id", None)
+            return nm in ("lemma",)
+        nm = d.attr if isinstance(d, ast.Attribute) else getattr(d, "id", None)
+        if nm == "timed":
+            self.trust("timed", "armi.utils.codeTiming.timed: the timing wrapper calls the function with the same arguments and returns its result")
+            return True
+        return nm in self._TRANSPARENT_DECORATORS
+
+    def decorated(self, f, st):
+        """A module- or class-level function with decorators the engine does not interpret itself: CPython binds the name
+        to decorator(function), so that is what a call must run.  The decorators are applied the first time the function
+        is used on a path (bottom-up, in the module's namespace) and the result is kept for the rest of the path."""
+        key = ("decorated", id(f.node))
+        d = st.ghost.get(key)
+        if d is not None:
+            return d
+        import copy as _copy
+
+        val = _copy.copy(f)
+        val.raw = True
+        for dn in reversed([d for d in f.node.decorator_list if not self.transparent_decorator(d)]):
+            st.frames.append(Frame({}, None, f.module, f.cls))
+            try:
+                outs = list(self.ev(dn, st))
+                if len(outs) != 1 or outs[0][0] is not st or isinstance(outs[0][1], Exc):
+                    raise Unsupported("decorator of %s does not evaluate to one value" % f.qualname())
+                outs = list(self.call(outs[0][1], [val], {}, st))
+                if len(outs) != 1 or outs[0][0] is not st or isinstance(outs[0][1], Exc):
+                    raise Unsupported("decorator of %s forks or raises" % f.qualname())
+                val = outs[0][1]
+            finally:
+                st.frames.pop()
+        if not isinstance(val, (FuncVal, Partial, BoundMethod)) and not (isinstance(val, Ref) and st.get(val).kind == "obj"):
+            raise Unsupported("decorator of %s returns a non-function" % f.qualname())
+        st.ghost[key] = val
+        self._global_keep.append(f.node)
+        return val
 
     def ex_For(self, node, st):
         yield from self.models.exec_for(self, st, node)
